@@ -894,6 +894,19 @@ class STensor:
     def abs(self):
         return STensor.from_flat([sabs(x) for x in self.flat()], self.shape, self.dtype)
 
+    def abs_(self):
+        for i in self.idx:
+            self.store[i] = sabs(self.store[i])
+        return self
+
+    absolute = abs
+    absolute_ = abs_
+
+    def sqrt_(self):
+        for i in self.idx:
+            self.store[i] = sfunc("sqrt", self.store[i])
+        return self
+
     def sqrt(self):
         return STensor.from_flat([sfunc("sqrt", x) for x in self.flat()], self.shape, FLOAT)
 
@@ -1568,6 +1581,14 @@ def grid_sample(input: STensor, grid: STensor, mode="bilinear", padding_mode="ze
     inp = input.tolist()
     g = grid.reshape([N, -1, D]).tolist()
     npos = _numel(out_sp)
+    const_ch = {}
+    for b in range(N):
+        for c in range(C):
+            fl = input[b, c].flat()
+            if fl and all(to_rat(v).equals(to_rat(fl[0])) for v in fl[1:]):
+                c0 = to_rat(fl[0])
+                if padding_mode == "border" or c0.is_zero():
+                    const_ch[(b, c)] = c0  # interpolating a constant channel gives that constant (border) / zero stays zero
     for b in range(N):
         per_c = [[] for _ in range(C)]
         for k in range(npos):
@@ -1583,6 +1604,9 @@ def grid_sample(input: STensor, grid: STensor, mode="bilinear", padding_mode="ze
                     exact = False
                     break
             for c in range(C):
+                if (b, c) in const_ch and not exact:
+                    per_c[c].append(const_ch[(b, c)])
+                    continue
                 if exact:
                     v = inp[b][c]
                     for d in reversed(range(D)):
